@@ -149,6 +149,13 @@ func Eq(a, b Term) Term {
 	if a.Sort != b.Sort {
 		panic(fmt.Sprintf("Eq: sort mismatch %s:%s vs %s:%s", a.S, a.Sort, b.S, b.Sort))
 	}
+	if a.Sort == SInt {
+		if x, ok1 := isIntLit(a); ok1 {
+			if y, ok2 := isIntLit(b); ok2 {
+				return BoolLit(x == y)
+			}
+		}
+	}
 	return app("=", SBool, a, b)
 }
 
